@@ -1,4 +1,15 @@
-"""C10 (one clause): in DELETE/INSERT ... WHERE every deletion happens before any insertion.
+"""C10 (ordering and addressing clauses): in DELETE/INSERT ... WHERE every deletion happens before any insertion; the
+data operations write only to the graphs they address, and "outside GRAPH" means the real default graph.
+
+Addressing (second half of this module): ghost sets `added_to` / `removed_from` / `cleared` record the graph objects
+that receive `+=`, `-=` and `remove((None, None, None))`.
+   real_default(ctx) = ctx.graph if it is a plain Graph, else ctx.dataset.default_context   (_defaultGraph, proved)
+   INSERT DATA : no removal; adds only to real_default(ctx) and to get_context(g) for the graph names g of the request
+   DELETE DATA : no addition; removes only from those graphs
+   CLEAR g     : nothing added; exactly the graphs of _graphAll(ctx, g) are cleared (DEFAULT = real_default(ctx))
+   ADD/COPY/MOVE src dst : nothing happens when both name the same graph; otherwise only dst receives triples, only dst
+                 (COPY, MOVE) is cleared first
+
 
 evalModify evaluates the WHERE clause once (evalPart is called exactly once, before any write) and then applies the
 templates.  Ghost state:  `inserted` (has any `+=` on a graph happened) and `evaluated` (number of evalPart calls).
@@ -13,7 +24,7 @@ from __future__ import annotations
 import ast
 import z3
 
-from pyvc.core import BOOL, INT, SV, TObj, TOpt, TTuple, Snapshot, declare_class
+from pyvc.core import BOOL, INT, STR, SV, TObj, TOpt, TTuple, Snapshot, declare_class
 from pyvc.interp import LoopSpec, Builtin, ClassRef, BoundMethod
 from pyvc.model import Contract, Model, Param
 
@@ -27,6 +38,17 @@ quad_tpl = z3.Function("quad_template_of_graph", z3.IntSort(), z3.IntSort(), z3.
 bound_graph = z3.Function("solution_get", z3.IntSort(), z3.IntSort(), z3.IntSort())
 push_graph = z3.Function("pushGraph", z3.IntSort(), z3.IntSort(), z3.IntSort())
 PAIR = TTuple(INT, INT, name="GraphAndTemplate")
+ctx_of_name = z3.Function("get_context_by_designator", z3.IntSort(), z3.StringSort(), z3.IntSort())
+gident = z3.Function("graph_identifier", z3.IntSort(), z3.IntSort())
+SRCDST = TTuple(STR, STR, name="SourceAndTarget")
+STORE = TObj("Store")
+
+
+class QuadsDict:
+    """u.quads: graph name -> template; keys quads_of(cv), values quad_tpl(cv, key)"""
+
+    def __init__(self, snap, cv, arr):
+        self.snap, self.cv, self.arr = snap, cv, arr
 
 
 class ModifyModel(Model):
@@ -36,9 +58,10 @@ class ModifyModel(Model):
         super().__init__()
         declare_class("QueryContext", fields={"graph": GR, "dataset": DS})
         declare_class("CompValue", fields={"using": BOOL, "withClause": TOpt(INT), "where": INT, "delete": TOpt(CV), "insert": TOpt(CV),
-                                           "triples": INT})
+                                           "triples": INT, "graph": SRCDST})
         declare_class("Graph", fields={"__plain__": BOOL})
-        declare_class("Dataset", fields={"default_context": GR})
+        declare_class("Dataset", fields={"default_context": GR, "store": STORE})
+        declare_class("Store", fields={"graph_aware": BOOL})
         g = self.globals
         g["Graph"] = ClassRef("Graph")
         g["evalPart"] = Builtin("evalPart", self.b_evalpart)
@@ -51,10 +74,16 @@ class ModifyModel(Model):
 
     def setup_path(self, path, interp, contract, selfv, args):
         super().setup_path(path, interp, contract, selfv, args)
+        if contract.qualname != "evalModify":
+            path.ghost["__addressing__"] = True
         path.ghost["inserted"] = z3.BoolVal(False)
         path.ghost["evaluated"] = z3.IntVal(0)
+        for nm in ("added_to", "removed_from", "cleared"):
+            path.ghost[nm] = z3.K(z3.IntSort(), z3.BoolVal(False))
 
     def havoc_ghost(self, it, name):
+        if name in ("added_to", "removed_from", "cleared"):
+            return z3.Const(it.path.fresh_name(name), z3.ArraySort(z3.IntSort(), z3.BoolSort()))
         return z3.Bool(it.path.fresh_name("inserted")) if name == "inserted" else z3.Int(it.path.fresh_name("evaluated"))
 
     def b_evalpart(self, it, a, k):
@@ -74,7 +103,21 @@ class ModifyModel(Model):
         p = it.path
         if isinstance(obj, SV) and isinstance(obj.ty, TObj):
             if obj.ty.cls == "Dataset" and name == "get_context":
-                return BoundMethod(obj, name, lambda it2, o, a, k: SV(GR, ctx_of(o.z, it2.path.inject(INT, a[0]))))
+                def get_context(it2, o, a, k):
+                    if isinstance(a[0], str) or (isinstance(a[0], SV) and a[0].ty.sort() == z3.StringSort()):
+                        return SV(GR, ctx_of_name(o.z, it2.path.inject(STR, a[0])))
+                    return SV(GR, ctx_of(o.z, it2.path.inject(INT, a[0])))
+                return BoundMethod(obj, name, get_context)
+            if obj.ty.cls == "Graph" and name == "identifier":
+                return SV(INT, gident(obj.z))
+            if obj.ty.cls == "Graph" and name == "remove":
+                def gremove(it2, o, a, k):
+                    it2.path.ghost["cleared"] = z3.Store(it2.path.ghost["cleared"], o.z, True)
+                return BoundMethod(obj, name, gremove)
+            if obj.ty.cls == "Store" and name == "remove_graph":
+                def sremove(it2, o, a, k):
+                    it2.path.ghost["cleared"] = z3.Store(it2.path.ghost["cleared"], a[0].z, True)
+                return BoundMethod(obj, name, sremove)
             if obj.ty.cls == "QueryContext" and name == "pushGraph":
                 def push(it2, o, a, k):
                     c2 = it2.path.new_ref(CTX)
@@ -86,16 +129,32 @@ class ModifyModel(Model):
                 arr = quads_of(obj.z)
                 cv = obj.z
                 s = Snapshot(PAIR, lambda z: z3.And(arr[PAIR.proj(0, z)], PAIR.proj(1, z) == quad_tpl(cv, PAIR.proj(0, z))), True)
-                return ("quads-dict", s)
-        if isinstance(obj, tuple) and obj and obj[0] == "quads-dict" and name == "items":
-            return BoundMethod(None, "items", lambda it2, o, a, k: obj[1])
+                return QuadsDict(s, cv, arr)
+        if isinstance(obj, QuadsDict) and name == "items":
+            return BoundMethod(None, "items", lambda it2, o, a, k: obj.snap)
         if isinstance(obj, SV) and obj.ty.sort() == z3.IntSort() and name == "get":     # a solution: c.get(g)
             return BoundMethod(obj, "get", lambda it2, o, a, k: SV(INT, bound_graph(o.z, it2.path.inject(INT, a[0]))))
+        return NotImplemented
+
+    def iter_descr(self, it, v):
+        if isinstance(v, QuadsDict):
+            from pyvc.interp import Interp
+            arr = v.arr
+            return Interp.IterDescr(INT, lambda z: arr[z], True)
+        return None
+
+    def getitem(self, it, obj, key, node):
+        if isinstance(obj, QuadsDict):
+            return SV(INT, quad_tpl(obj.cv, it.path.inject(INT, key)))
         return NotImplemented
 
     def inplace_op(self, it, op, cur, rhs):
         p = it.path
         if isinstance(cur, SV) and isinstance(cur.ty, TObj) and cur.ty.cls == "Graph":
+            if p.ghost.get("__addressing__"):
+                nm = "removed_from" if isinstance(op, ast.Sub) else "added_to"
+                p.ghost[nm] = z3.Store(p.ghost[nm], cur.z, True)
+                return cur
             if isinstance(op, ast.Sub):
                 p.oblige("deletion-before-any-insertion", z3.Not(p.ghost["inserted"]), "graph -= template instance", "ghost")
                 p.oblige("where-evaluated-once-before-deleting", p.ghost["evaluated"] == 1, "graph -= template instance", "ghost")
@@ -127,6 +186,93 @@ class ModifyModel(Model):
                           modifies=[], loops=self.find_loops(),
                           note="DELETE/INSERT: the WHERE clause is evaluated once, before any write; every deletion "
                                "precedes every insertion (all solutions' deletions first)"))
+        self.declare_addressing()
+
+    # ------------------------------------------------------------------ addressing contracts
+    def declare_addressing(self):
+        def real_default(st, ctx):
+            g = st.field("QueryContext", "graph", ctx)
+            ds = st.field("QueryContext", "dataset", ctx)
+            return z3.If(st.field("Graph", "__plain__", g), g, st.field("Dataset", "default_context", ds))
+
+        def ctx_pre(c):
+            st, ctx = c.old, c.args["ctx"].z
+            return z3.And(ctx > 0, st.field("QueryContext", "graph", ctx) > 0, st.field("QueryContext", "dataset", ctx) > 0,
+                          st.field("Dataset", "default_context", st.field("QueryContext", "dataset", ctx)) > 0)
+
+        def start(path, interp, contract, selfv, args):
+            path.ghost["__addressing__"] = True
+        self.addressing_start = start
+        self.add(Contract("C10", REL, "_defaultGraph", [Param("ctx", CTX)], ret=GR, pre=ctx_pre,
+                          post=lambda c: [("the-real-default-graph", c.result.z == real_default(c.old, c.args["ctx"].z))],
+                          modifies=[], note="writes outside GRAPH address ctx.graph if it is a plain Graph, else the "
+                                            "dataset's default graph - never the union"))
+
+        def god_post(c):
+            st, ctx, g = c.old, c.args["ctx"].z, c.args["g"].z
+            ds = st.field("QueryContext", "dataset", ctx)
+            return [("default-or-named", c.result.z == z3.If(g == z3.StringVal("DEFAULT"), real_default(st, ctx), ctx_of_name(ds, g)))]
+        self.add(Contract("C10", REL, "_graphOrDefault", [Param("ctx", CTX), Param("g", STR)], ret=GR, pre=ctx_pre, post=god_post,
+                          modifies=[], note="DEFAULT designates the real default graph, anything else get_context(name)"))
+
+        def allowed(c, x):
+            st, ctx, u = c.old, c.args["ctx"].z, c.args["u"].z
+            ds = st.field("QueryContext", "dataset", ctx)
+            g = z3.Int("al_g")
+            return z3.Or(x == real_default(st, ctx), z3.Exists([g], z3.And(quads_of(u)[g], x == ctx_of(ds, g))))
+
+        def data_inv(which):
+            def inv(lc):
+                c = lc.interp.callctx
+                x = z3.Int("di_x")
+                other = "removed_from" if which == "added_to" else "added_to"
+                return z3.And(lc.path.ghost[which][real_default(c.old, c.args["ctx"].z)],
+                              z3.ForAll([x], z3.Implies(lc.path.ghost[which][x], allowed(c, x))),
+                              z3.ForAll([x], z3.Not(lc.path.ghost[other][x])), z3.ForAll([x], z3.Not(lc.path.ghost["cleared"][x])))
+            return inv
+
+        def data_post(which):
+            def post(c):
+                x = z3.Int("dp_x")
+                other = "removed_from" if which == "added_to" else "added_to"
+                g = c.path.ghost
+                return [("writes-only-to-the-addressed-graphs", z3.ForAll([x], z3.Implies(g[which][x], allowed(c, x)))),
+                        ("the-default-graph-part-goes-to-the-real-default-graph", g[which][real_default(c.old, c.args["ctx"].z)]),
+                        ("no-opposite-operation", z3.ForAll([x], z3.Not(g[other][x]))),
+                        ("nothing-cleared", z3.ForAll([x], z3.Not(g["cleared"][x])))]
+            return post
+        vt = {"g": "poison", "cg": "poison"}
+        for fn, which in (("evalInsertData", "added_to"), ("evalDeleteData", "removed_from")):
+            self.add(Contract("C10", REL, fn, [Param("ctx", CTX), Param("u", CV)], pre=lambda c: z3.And(ctx_pre(c), c.args["u"].z > 0),
+                              post=data_post(which), modifies=[],
+                              loops={0: LoopSpec(data_inv(which), modifies=["added_to", "removed_from", "cleared"], var_types=vt)},
+                              note=f"{fn}: only {'+=' if which == 'added_to' else '-='} on the real default graph and on "
+                                   "get_context(name) for the request's graph names"))
+
+        def amc_post(kind):
+            def post(c):
+                st, ctx, u = c.old, c.args["ctx"].z, c.args["u"].z
+                ds = st.field("QueryContext", "dataset", ctx)
+                sd = st.field("CompValue", "graph", u)
+
+                def des(d):
+                    return z3.If(d == z3.StringVal("DEFAULT"), real_default(st, ctx), ctx_of_name(ds, d))
+                src, dst = des(SRCDST.proj(0, sd)), des(SRCDST.proj(1, sd))
+                same = gident(src) == gident(dst)
+                g = c.path.ghost
+                x = z3.Int("am_x")
+                empty = lambda arr: z3.ForAll([x], z3.Not(arr[x]))          # noqa: E731
+                only = lambda arr, *els: z3.ForAll([x], arr[x] == z3.Or(*[x == e for e in els]))      # noqa: E731
+                cleared = {"add": empty(g["cleared"]), "copy": only(g["cleared"], dst), "move": only(g["cleared"], dst, src)}[kind]
+                return [("same-graph-is-a-no-op", z3.Implies(same, z3.And(empty(g["added_to"]), empty(g["cleared"])))),
+                        ("only-the-target-receives-triples", z3.Implies(z3.Not(same), only(g["added_to"], dst))),
+                        ("cleared-graphs", z3.Implies(z3.Not(same), cleared)),
+                        ("no-triple-wise-removal", empty(g["removed_from"]))]
+            return post
+        for fn, kind in (("evalAdd", "add"), ("evalCopy", "copy"), ("evalMove", "move")):
+            self.add(Contract("C10", REL, fn, [Param("ctx", CTX), Param("u", CV)], pre=lambda c: z3.And(ctx_pre(c), c.args["u"].z > 0),
+                              post=amc_post(kind), modifies=[],
+                              note=f"{fn.replace('eval', '').upper()} src dst: no-op on one graph; otherwise only dst receives triples"))
 
     def find_loops(self):
         """attach the invariants to the loops of the real source: a loop whose body (transitively) contains `-=` is a
